@@ -2,6 +2,7 @@ import MoneroModel.Proofs.Group
 import MoneroModel.Proofs.GroupInstance
 import MoneroModel.Proofs.EdwardsLawful
 import MoneroModel.Proofs.ScanRecover
+import MoneroModel.Proofs.GroupRefine
 /-! C09 — "Recovered one-time secret key matches the output's one-time public key".
 About the model `Monero.recoverKey` (Model/Crypto.lean: `KeyRecoverer::{new, recover}` with `get_spend_secret_key`) and
 the by-the-book sender `Spec.Sender`. For every additive commutative group and every lawful `ops` (Proofs/Group.lean).
@@ -172,6 +173,20 @@ theorem C09_owned_recover_ed25519 : type_of% (@C09_owned_recover EdPoint _ edOps
   C09_owned_recover edOps_lawful
 theorem C09_owned_recover_all_apis_ed25519 : type_of% (@C09_owned_recover_all_apis EdPoint _ edOps edOps_lawful) :=
   C09_owned_recover_all_apis edOps_lawful
+/-- **the driver's scalars are the theorems' scalars**: on a valid representative `B` of the transaction key and a 32-byte
+view secret, the executable instance `Drv.refOps` (model side of `c09_recover`, `c09_recover_seq`, `c09_scan_tx`,
+`c09_scenario`) computes the very number `recoverKey edOps …` the `_ed25519` theorems speak about; and the formula inlined in
+the scenario driver (`Drv.C07.Scen.showRecover`: `Drv.decodeKey w.txKey`, then `recoverKey` on the owned output's own position
+and index) is the model `Owned.recoverKey` of `OwnedTxOut::recover_key` -/
+theorem C09_driver_refines (v s : ℕ) (hv : v < 2 ^ 260) (B : Ed.Pt) (hB : Valid B) (n i j : ℕ) (w : Owned) :
+    recoverKey Drv.refOps v s B n i j = recoverKey edOps v s (toPoint B hB) n i j ∧
+    Owned.recoverKey Drv.refOps w v s
+      = (Drv.decodeKey w.txKey).map fun R => recoverKey Drv.refOps v s R w.index w.sub.1 w.sub.2 := by
+  refine ⟨refines_recoverKey refOps_refines_edOps v s hv B hB n i j, ?_⟩
+  unfold Owned.recoverKey
+  rw [refOps_dec]
+  cases Drv.decodeKey w.txKey <;> rfl
+
 /-- on Ed25519 every reduced scalar is a 32-byte number: `v < l` suffices for `C09_recover_value_bounded` -/
 theorem C09_recover_value_bounded_ed25519 (v s : ℕ) (R : EdPoint) (n i j : ℕ)
     (hi : i < 2 ^ 32) (hj : j < 2 ^ 32) (hn : n < 2 ^ 64) (hv : v < edOps.l) :
